@@ -5,24 +5,45 @@
    partial filter, expiry, name) enforcing the same constraints, and the same
    change log, for every content that could be written through the API."
 
-   Only statements closed by `exact`, with Print Assumptions.  The model is
-   Model/Codec.v (BSON wire format) and Model/File.v (BuildFile, Marshal /
-   Unmarshal of the File structs, BuildCatalog), tied to /repo by the families
-   `codec` and `reload` of harness/fam_codec.go.
+   Only statements closed by `exact`, with Print Assumptions.  Two models:
+   Model/Codec.v (BSON wire format) + Model/File.v (BuildFile, Marshal /
+   Unmarshal of the File structs, BuildCatalog) for the FILE IMAGE, and
+   Model/Collection.v / Txn.v / Driver.v (documents with identities, indexes
+   with their ENTRY sets, every driver call) for the DATABASE; Model/Reload.v
+   connects them (`image`, the real index builder `build_ok_real`, `load`,
+   `reopen`).  Tied to /repo by the families `codec` and `reload` of
+   harness/fam_codec.go.
 
-   FULL STATEMENT (false of lungo, see C06_reload_identity_refuted):
-     forall c, wf_catalog nilp c -> indexes_build build_ok c = true ->
-               reload_g build_ok nilp c = Some c.
-   It is proved with the extra hypothesis `handles_ok c` (no database name
-   contains a dot), which Handle.Validate does not enforce.
+   FILE LEVEL (part 1): forall c, wf_catalog nilp c -> indexes_build build_ok c
+   = true -> handles_ok c = true -> reload_g build_ok nilp c = Some c, with
+   `build_ok` abstract; false without `handles_ok` (C06_reload_identity_refuted,
+   the repaired defect).
 
-   Not modelled: index ENTRIES.  `indexes_build` is the hypothesis that every
-   stored index can be rebuilt over its documents (C07/C15); "enforcing the
-   same constraints" then follows from equal documents and equal definitions
-   and is checked on the real code by the duplicate probes of the oracle. *)
+   HISTORY LEVEL (part 2): for every history of driver calls both hypotheses
+   are INVARIANTS — `handles_ok` because Handle.Validate rejects a dot in a
+   database name (C06_handles_ok_history), `indexes_build` for the REAL index
+   builder because every index of a reachable catalog is coherent and unique
+   (C15 / C07: C06_indexes_build_real) — so Store-then-Load is the identity on
+   the image, the catalog rebuilt from the file is equivalent to the original
+   (same documents in order, same index definitions, entry sets equal modulo
+   the renumbering of document identities: C06_load_equivalent), and the
+   reopened engine answers EVERY later call identically
+   (C06_reload_continuation, from the simulation C06_step_simulation).
+   Remaining hypotheses: the codec-side conditions on the stored VALUES
+   (`storable_image`: names without NUL, values in the codec's range, file
+   below 2^31 bytes) — not provable from how documents enter, since calls
+   carry arbitrary values and the update semantics is a parameter.  Sessions
+   do not survive a reload: the continuation is compared with the original
+   engine without its client sessions (`forget_sessions`), which is the
+   original itself for histories without explicit session control
+   (C06_reload_continuation_plain; C06_sessions_do_not_survive shows why).
+   Event timestamps and generated ObjectIDs are ranks in the model, so the
+   reopened engine continues both counters. *)
 From Coq Require Import List ZArith String.
 From Lungo.Model Require Import File.
-From Lungo.Proofs Require Import CodecProofs FileProofs.
+From Lungo.Model Require Import Driver Reload Match Apply Project ApiOps.
+From Lungo.Proofs Require Import CodecProofs FileProofs CatInv HistoryInv ReloadProofs ReloadHandles
+  ReloadSimCat ReloadSimStep ReloadHistory ReloadExamples.
 Import ListNotations.
 Open Scope string_scope.
 Open Scope Z_scope.
@@ -97,3 +118,126 @@ Example C06_reload_identity_example :
   indexes_build create_ok sample_catalog = true /\ handles_ok sample_catalog = true /\
   reload_g create_ok (fun k => String.eqb k "e.empty") sample_catalog = Some sample_catalog.
 Proof. exact reload_identity_example. Qed.
+
+(* ------------------------------------------------------------------ *)
+(* Part 2: the database model (indexes with their entries) and histories *)
+
+(* rebuilding every stored index with the REAL builder (mongokit.CreateIndex +
+   Index.Build over the stored documents) succeeds for every catalog that
+   satisfies the catalog invariant — hence for every reachable one *)
+Theorem C06_indexes_build_real : forall matchf c n,
+  cat_inv matchf c n -> indexes_build (build_ok_real matchf) (image c) = true.
+Proof. exact indexes_build_image. Qed.
+Print Assumptions C06_indexes_build_real.
+
+(* BuildCatalog on the image: fresh collections, documents renumbered in
+   order, CreateIndex + Build per definition — gives a catalog that is good
+   again and EQUIVALENT to the original: same handles, same documents in the
+   same order, same index names / definitions, and for every index the entry
+   set is the image of the original entry set under the renumbering
+   position-k identity |-> position-k identity (ReloadProofs.cat_equiv) *)
+Theorem C06_load_equivalent : forall matchf c n,
+  cat_inv matchf c n ->
+  exists c', load matchf (cat_clock c) (image c) = Some c' /\
+             cat_equiv c c' /\ cat_inv matchf c' (next_did (image c)).
+Proof. exact load_image. Qed.
+Print Assumptions C06_load_equivalent.
+
+(* no database name of a reachable catalog contains a dot *)
+Theorem C06_handles_ok_history : forall matchf applyf extractf projectf now calls,
+  handles_ok (image (ds_cat (fst (run matchf applyf extractf projectf now d_init calls)))) = true.
+Proof. exact handles_ok_history. Qed.
+Print Assumptions C06_handles_ok_history.
+
+(* after ANY history: the stored file loads back as the same image, with the
+   real index builder; the rebuilt catalog is equivalent to the stored one *)
+Theorem C06_reload_history : forall matchf applyf extractf projectf now calls nilp,
+  let ds := fst (run matchf applyf extractf projectf now d_init calls) in
+  storable_image nilp (ds_cat ds) ->
+  indexes_build (build_ok_real matchf) (image (ds_cat ds)) = true /\
+  handles_ok (image (ds_cat ds)) = true /\
+  reload_g (build_ok_real matchf) nilp (image (ds_cat ds)) = Some (image (ds_cat ds)) /\
+  exists c', load matchf (cat_clock (ds_cat ds)) (image (ds_cat ds)) = Some c' /\
+             cat_equiv (ds_cat ds) c' /\
+             cat_inv matchf c' (next_did (image (ds_cat ds))) /\
+             reopen matchf nilp ds =
+               Some (mkD c' (mkGen (next_did (image (ds_cat ds))) (g_oid (ds_gen ds))) []).
+Proof. exact reload_history. Qed.
+Print Assumptions C06_reload_history.
+
+(* the simulation: two driver states related by `dsim` (same handles,
+   documents, index definitions, change log, clock, ObjectID counter and
+   sessions; both satisfy the invariants; identities and entry order free)
+   give the same reply to EVERY call and stay related *)
+Theorem C06_step_simulation : forall matchf applyf extractf projectf now d1 d2 c,
+  dsim matchf d1 d2 ->
+  snd (step matchf applyf extractf projectf now d1 c) =
+  snd (step matchf applyf extractf projectf now d2 c) /\
+  dsim matchf (fst (step matchf applyf extractf projectf now d1 c))
+              (fst (step matchf applyf extractf projectf now d2 c)).
+Proof. exact step_sim. Qed.
+Print Assumptions C06_step_simulation.
+
+(* "... and answers every later call identically": after any history, the
+   reopened engine and the original (without its client sessions) give the
+   same replies to every continuation, and stay related *)
+Theorem C06_reload_continuation : forall matchf applyf extractf projectf now calls nilp more,
+  let ds := fst (run matchf applyf extractf projectf now d_init calls) in
+  storable_image nilp (ds_cat ds) ->
+  exists ds', reopen matchf nilp ds = Some ds' /\ cat_equiv (ds_cat ds) (ds_cat ds') /\
+              snd (run matchf applyf extractf projectf now ds' more) =
+              snd (run matchf applyf extractf projectf now (forget_sessions ds) more) /\
+              dsim matchf (fst (run matchf applyf extractf projectf now (forget_sessions ds) more))
+                          (fst (run matchf applyf extractf projectf now ds' more)).
+Proof. exact reload_continuation. Qed.
+Print Assumptions C06_reload_continuation.
+
+(* for histories without explicit session control calls the original engine
+   itself is the reference *)
+Theorem C06_reload_continuation_plain : forall matchf applyf extractf projectf now calls nilp more,
+  let ds := fst (run matchf applyf extractf projectf now d_init calls) in
+  Forall plain_call calls -> storable_image nilp (ds_cat ds) ->
+  exists ds', reopen matchf nilp ds = Some ds' /\ cat_equiv (ds_cat ds) (ds_cat ds') /\
+              snd (run matchf applyf extractf projectf now ds' more) =
+              snd (run matchf applyf extractf projectf now ds more).
+Proof. exact reload_continuation_plain. Qed.
+Print Assumptions C06_reload_continuation_plain.
+
+(* non-vacuity (full operator models, by computation): unique + TTL index,
+   identities 1, 7 / 2, 4, 6, 8, 9 before and 6, 7 / 1..5 after the reload,
+   the entry sets renumbered accordingly, and a continuation with duplicate
+   probes, a TTL pass, an oplog read and a session transaction answered alike *)
+Example C06_reload_example :
+  Forall plain_call ex_history /\
+  storable_image ex_nilp (ds_cat ex_ds) /\
+  entries_of (ds_cat ex_ds) =
+    [ (Txn.oplog_handle, [2; 4; 6; 8; 9], []);
+      (ex_h, [1; 7], [ ("_id_", [([VInt32 1], 1); ([VInt32 2], 7)]);
+                       ("u_1", [([VInt32 5], 1); ([VInt32 8], 7)]);
+                       ("t_1", [([VDate 0], 1); ([VMissing], 7)]) ]) ] /\
+  option_map (fun d => (ds_gen d, entries_of (ds_cat d))) (reopen api_match ex_nilp ex_ds) =
+    Some (mkGen 8 1,
+          [ (Txn.oplog_handle, [1; 2; 3; 4; 5], []);
+            (ex_h, [6; 7], [ ("_id_", [([VInt32 1], 6); ([VInt32 2], 7)]);
+                             ("u_1", [([VInt32 5], 6); ([VInt32 8], 7)]);
+                             ("t_1", [([VDate 0], 6); ([VMissing], 7)]) ]) ]) /\
+  option_map (fun d => snd (ex_run d ex_more)) (reopen api_match ex_nilp ex_ds) = Some ex_replies /\
+  snd (ex_run ex_ds ex_more) = ex_replies.
+Proof. exact reload_example. Qed.
+
+(* the equivalence is needed: same image, but the unique index built over
+   half of the documents — the duplicate probe is accepted *)
+Example C06_broken_index_differs :
+  image (ds_cat ex_broken) = image (ds_cat ex_ds) /\
+  firstn 1 (snd (ex_run ex_broken ex_more)) = [RId (VInt32 9)] /\
+  firstn 1 (snd (ex_run ex_ds ex_more)) = [RErr EDup].
+Proof. exact broken_index_differs. Qed.
+
+(* sessions do not survive a reload: why `forget_sessions` *)
+Example C06_sessions_do_not_survive :
+  let ds := fst (ex_run d_init (ex_history ++ [CStart 1])) in
+  let probe := [CInsertOne 0 ex_h [("_id", VInt32 9); ("u", VInt32 0)]] in
+  snd (ex_run ds probe) = [RErr EErr] /\
+  option_map (fun d => snd (ex_run d probe)) (reopen api_match ex_nilp ds) = Some [RId (VInt32 9)] /\
+  snd (ex_run (forget_sessions ds) probe) = [RId (VInt32 9)].
+Proof. exact sessions_do_not_survive. Qed.
